@@ -116,6 +116,8 @@ type AssertAt struct {
 	Lemma  bool // "assert after f#k: lemma L(args)": an instance of the proved lemma L is made available here
 	Path   []string // "assert after g/f#k": the call of f inside the inlined body of g (lemma functions that inline callees)
 	Bind   string   // "bind after f#k: $name = expr": names a ghost value for later anchors of this function
+	Label  string   // "assert after f#k as NAME: expr": names the assertion
+	From   []string // "assert after f#k from A, B: expr": proved from the named earlier assertions alone (a smaller query; proving from a subset of the hypotheses is sound)
 }
 
 // Guard: field Field of struct type Type may only be accessed while the mutex field Mutex of the same object is held.
@@ -469,6 +471,16 @@ func (lib *SpecLib) loadFile(path, prefix string) error {
 					return bad(fmt.Errorf("assert after <callee>#<k>: <expr>"))
 				}
 				loc, ex := strings.TrimSpace(r[:i]), strings.TrimSpace(r[i+1:])
+				label := ""
+				var from []string
+				if j := strings.Index(loc, " from "); j >= 0 {
+					from = strings.FieldsFunc(loc[j+6:], func(r rune) bool { return r == ',' || r == ' ' })
+					loc = strings.TrimSpace(loc[:j])
+				}
+				if j := strings.Index(loc, " as "); j >= 0 {
+					label = strings.TrimSpace(loc[j+4:])
+					loc = strings.TrimSpace(loc[:j])
+				}
 				ord := 1
 				if j := strings.Index(loc, "#"); j >= 0 {
 					ord, _ = strconv.Atoi(loc[j+1:])
@@ -508,7 +520,7 @@ func (lib *SpecLib) loadFile(path, prefix string) error {
 					}
 					cur.Uses = append(cur.Uses, call.Fun)
 				}
-				cur.Asserts = append(cur.Asserts, AssertAt{Callee: loc, Ord: ord, C: c, Lemma: isLemma, Path: path})
+				cur.Asserts = append(cur.Asserts, AssertAt{Callee: loc, Ord: ord, C: c, Lemma: isLemma, Path: path, Label: label, From: from})
 			case "mapinv":
 				i := strings.Index(rest, ": ")
 				if i < 0 {
